@@ -359,6 +359,94 @@ def io_after_close(pexpect, c):
     return None
 
 
+def fd_life_cases(ctx, pexpect, n):
+    """job fd-life: the REAL close / isalive / send of fdspawn and SocketSpawn on a fake descriptor / socket object (os.close,
+    os.fstat, os.write and the socket methods answered by a one-bit model of the OS descriptor) against Life/FdModel.v"""
+    from pexpect import fdpexpect, socket_pexpect
+    rng = ctx.rng
+    FD = 987
+    cases = []
+    for it in range(n):
+        is_socket = rng.random() < 0.5
+        ops = [rng.choice(['close', 'close', 'isalive', 'send', 'ext']) for _ in range(rng.randint(1, 7))]
+        st = {'open': True, 'releases': 0}
+        saved = (os.close, os.fstat, os.write)
+
+        def oclose(fd):
+            if fd != FD:
+                return saved[0](fd)
+            if not st['open']:
+                raise OSError(9, 'Bad file descriptor')
+            st['open'] = False
+            st['releases'] += 1
+
+        def ofstat(fd):
+            if fd != FD:
+                return saved[1](fd)
+            if not st['open']:
+                raise OSError(9, 'Bad file descriptor')
+            return os.stat_result((0o20620, 0, 0, 1, 0, 0, 0, 0, 0, 0))
+
+        def owrite(fd, b):
+            if fd != FD:
+                return saved[2](fd, b)
+            if not st['open']:
+                raise OSError(9, 'Bad file descriptor')
+            return len(b)
+
+        class Sock:
+            def fileno(self_):
+                return FD if st['open'] else -1
+
+            def gettimeout(self_):
+                return None
+
+            def settimeout(self_, t):
+                pass
+
+            def shutdown(self_, how):
+                if not st['open']:
+                    raise OSError(9, 'Bad file descriptor')
+
+            def close(self_):
+                if st['open']:
+                    st['open'] = False
+                    st['releases'] += 1
+
+            def sendall(self_, b):
+                if not st['open']:
+                    raise OSError(9, 'Bad file descriptor')
+        os.close, os.fstat, os.write = oclose, ofstat, owrite
+        obs = []
+        try:
+            if is_socket:
+                c = socket_pexpect.SocketSpawn(Sock(), timeout=1)
+            else:
+                c = fdpexpect.fdspawn(FD, timeout=1)
+            for o in ops:
+                try:
+                    if o == 'close':
+                        c.close()
+                        r = [0]
+                    elif o == 'isalive':
+                        r = [1, bool(c.isalive())]
+                    elif o == 'send':
+                        c.send(b'x')
+                        r = [0]
+                    else:
+                        if not is_socket:
+                            st['open'] = False          # somebody else closes the descriptor
+                        r = [0]
+                except (OSError, ValueError, pexpect.ExceptionPexpect):
+                    r = [2]
+                obs.append([r, [c.child_fd != -1, bool(c.closed), st['open'], st['releases']]])
+        finally:
+            os.close, os.fstat, os.write = saved
+        cops = clist(['FClose' if o == 'close' else 'FIsalive' if o == 'isalive' else 'FSend' if o == 'send' else 'FExternalClose' for o in ops])
+        cases.append(('(%s, %s)' % (cbool(is_socket), cops), obs, {'socket': is_socket, 'ops': ops}))
+    ctx.run_cases('fd-life', ['Life.FdModel', 'Life.Run'], 'run_fdlife', 'bool * list fop', cases, shard=500)
+
+
 def run_property(ctx, which, props_file):
     pexpect = common.preflight()
     thorough = ctx.tier == 'thorough'
@@ -379,6 +467,8 @@ def run_property(ctx, which, props_file):
     if which == 'C09':
         real_C09(ctx, pexpect, thorough)
     else:
+        if os.path.exists(os.path.join(common.COQ, 'Life/Run.vo')):
+            fd_life_cases(ctx, pexpect, 6000 if thorough else 1200)
         real_C10(ctx, pexpect, thorough)
 
 
